@@ -182,6 +182,10 @@ theorem execInstr_step (lines : List Text.Str) {rec : Rec} (hrec : RecOK rec) (i
     simp only [execInstr, pure_ok_iff] at h; subst h
     have s : Step st (st.globalDecl ns) := Step.same (hg.globalDecl ns) rfl rfl
     exact ⟨s, he.step s⟩
+  | nonlocalDecl ns =>
+    simp only [execInstr, pure_ok_iff] at h; subst h
+    have s : Step st (st.nonlocalDecl ns) := Step.same (hg.nonlocalDecl ns) rfl rfl
+    exact ⟨s, he.step s⟩
   | addReturn =>
     simp only [execInstr, pure_ok_iff] at h; subst h
     have s : Step st st.addReturn := Step.same hg.addReturn rfl rfl
